@@ -359,6 +359,54 @@ fn main() {
             println!("temp_left={}", exists(&tp));
             println!("table_left={}", exists(&tb));
         }
+        // filter_policy_sweep : tables of 700 tiny entries in 64-byte blocks, Bloom filters with 1, 10, 30, 43, 44, 50 and 64 bits per key
+        // (single filters longer than 2 KiB and filters with the maximal 30 probes among them); every stored key is looked up
+        "filter_policy_sweep" => {
+            let (mut missing, mut first) = (0usize, String::new());
+            for bits in [1usize, 10, 30, 43, 44, 50, 64] {
+                let fs = std::sync::Arc::new(raindb::fs::InMemoryFileSystem::new());
+                let mut o = v::options_with(fs, 64);
+                o.filter_policy = std::sync::Arc::new(raindb::BloomFilterPolicy::new(bits));
+                let keys: Vec<Vec<u8>> = (0..700u32).map(|i| format!("k{:04}", i).into_bytes()).collect();
+                let ents: Vec<(&[u8], u64, bool, &[u8])> = keys.iter().map(|k| (k.as_slice(), 7u64, true, &b"v"[..])).collect();
+                if !v::table_build(&o, &ents) {
+                    println!("result=build-failed");
+                    return;
+                }
+                for k in &keys {
+                    let (code, _) = v::table_get(&o, k, 100);
+                    if code != 0 {
+                        missing += 1;
+                        if first.is_empty() {
+                            first = format!("{} with {} bits per key", String::from_utf8_lossy(k), bits);
+                        }
+                    }
+                }
+            }
+            // many entries per 2 KiB of (compressed) file with 64 bits per key: single filters of more than 2 KiB that are not the last
+            for (block, n) in [(4096usize, 6000u32), (1024, 4000)] {
+                let fs = std::sync::Arc::new(raindb::fs::InMemoryFileSystem::new());
+                let mut o = v::options_with(fs, block);
+                o.filter_policy = std::sync::Arc::new(raindb::BloomFilterPolicy::new(64));
+                let keys: Vec<Vec<u8>> = (0..n).map(|i| format!("k{:05}", i).into_bytes()).collect();
+                let ents: Vec<(&[u8], u64, bool, &[u8])> = keys.iter().map(|k| (k.as_slice(), 7u64, true, &b""[..])).collect();
+                if !v::table_build(&o, &ents) {
+                    println!("result=build-failed");
+                    return;
+                }
+                for k in &keys {
+                    let (code, _) = v::table_get(&o, k, 100);
+                    if code != 0 {
+                        missing += 1;
+                        if first.is_empty() {
+                            first = format!("{} of {} tiny entries, {}-byte blocks, 64 bits per key", String::from_utf8_lossy(k), n, block);
+                        }
+                    }
+                }
+            }
+            println!("missing={}", missing);
+            println!("first_missing={}", first);
+        }
         // trivial_move n0 n1 : level 1 holds n0 (1..2) adjacent files which are the chosen inputs, level 2 holds n1 files that
         // overlap them; after the real input finalisation the manifest is asked whether this is a trivial move
         "trivial_move" => {
